@@ -24,6 +24,10 @@ type mapStep struct {
 	Labels   [][]byte // may hold an empty label or a label of more than 63 octets: then the name is not valid
 	Compress bool
 	NewMap   bool `json:",omitempty"` // the caller starts a fresh map with this call
+	// Short > 0: the caller first makes the call with only Short-1 octets of buffer behind the offset
+	// (buf[:off+Short-1]: the buffer it has at that moment) and, when that is refused, repeats it with
+	// the whole buffer - the same name, the same offset, the same map (round 9)
+	Short int `json:",omitempty"`
 }
 
 type mapSeqCase struct {
@@ -72,6 +76,10 @@ func eqLabels(a, b [][]byte) bool {
 
 const staleMapID = "stale-map-after-refusal"
 
+// the same mechanism met by a VALID name: the call that was refused for lack of room entered the
+// suffixes it had written so far, and the repetition in a buffer with room finds itself in the map
+const shortMapID = "stale-map-after-short-buffer"
+
 // hitsStale: step i is an invalid name that, packed with compress=true, meets in the map a key
 // that a REFUSED earlier call left there: the refused call entered every suffix it had walked
 // over before it met its bad label; step i walks up to its own bad label and looks each suffix up.
@@ -100,6 +108,13 @@ func hitsStale(steps []mapStep, i int) bool {
 }
 
 func checkMapSeq(c mapSeqCase) error {
+	return checkMapSeq1(c, pbt.Known(staleMapID), pbt.Known(shortMapID))
+}
+
+// leaveOutStale, leaveOutShort: the repetition of a call that was refused for lack of room does not
+// meet what that call left in the map - for an invalid name (stale-map-after-refusal) / for a valid
+// name (stale-map-after-short-buffer); the probes run with false, false
+func checkMapSeq1(c mapSeqCase, leaveOutStale, leaveOutShort bool) error {
 	d := c.D.norm()
 	if len(c.Steps) == 0 || len(c.Steps) > 64 {
 		return nil
@@ -111,11 +126,11 @@ func checkMapSeq(c mapSeqCase) error {
 	}
 	need := 0
 	var key []byte
-	nInvalid, afterRefusal := 0, false
+	nInvalid, afterRefusal, shortRefused, shortAccepted := 0, false, 0, 0
 	for _, st := range c.Steps {
 		t := stepText(st.Labels)
 		need += len(t) + 2
-		key = append(append(key, t...), 0, b2b(st.Compress), b2b(st.NewMap))
+		key = append(append(key, t...), 0, b2b(st.Compress), b2b(st.NewMap), byte(min(max(st.Short, 0), 255)))
 		if !stepValid(st.Labels) {
 			nInvalid++
 		}
@@ -139,11 +154,62 @@ func checkMapSeq(c mapSeqCase) error {
 		if ok != valid {
 			return pbt.Errf("IsDomainName(%q)=%v but the reference says valid=%v", short(s), ok, valid)
 		}
+		if st.Short > 0 {
+			// the buffer of the moment ends Short-1 octets behind the offset
+			room := min(st.Short-1, len(buf)-off)
+			var keys map[string]bool
+			if valid && leaveOutShort || !valid && leaveOutStale {
+				keys = map[string]bool{}
+				for k := range comp {
+					keys[k] = true
+				}
+			}
+			behind := append([]byte(nil), buf[off+room:cap(buf)]...)
+			off1, err := dns.PackDomainName(s, buf[:off+room], off, comp, st.Compress)
+			if now := buf[off+room : cap(buf)]; !bytes.Equal(behind, now) {
+				return pbt.Errf("PackDomainName(%q, compress=%v) at offset %d of a buffer of %d octets (err=%v) changed octets at and beyond len: %x, before %x; calls so far: %s", short(s), st.Compress, off, off+room, err, now, behind, describeSteps(c.Steps[:i+1]))
+			}
+			if err == nil {
+				// there was room (all of the name, or some labels and a pointer): this is the call
+				shortAccepted++
+				if !valid {
+					return pbt.Errf("PackDomainName(%q, compress=%v) at offset %d of a buffer of %d octets: accepted, but IsDomainName and the reference say valid=false; calls so far: %s", short(s), st.Compress, off, off+room, describeSteps(c.Steps[:i+1]))
+				}
+				got, _, rerr := wm.ReadName(buf[:min(max(off1, off), off+room)], off)
+				if off1 > off+room || rerr != nil || !got.Equal(wm.Name(st.Labels)) {
+					return pbt.Errf("PackDomainName(%q, compress=%v) at offset %d of a buffer of %d octets returned offset %d and wrote %x, which reads back as %q (err=%v); calls so far: %s", short(s), st.Compress, off, off+room, off1, buf[off:min(max(off1, off), off+room)], short(wm.EscName(got)), rerr, describeSteps(c.Steps[:i+1]))
+				}
+				if _, _, uerr := dns.UnpackDomainName(buf[:off1], off); uerr != nil {
+					return pbt.Errf("PackDomainName(%q) emitted octets that UnpackDomainName rejects: %v", short(s), uerr)
+				}
+				off = off1
+				continue
+			}
+			shortRefused++
+			if keys != nil && len(comp) > len(keys) {
+				// known finding: the refused call left the suffixes it had written so far in the map; the
+				// repetition (compress=true) would find the name itself there. The class is left out
+				// while the finding is listed and reproduces: the caller takes those keys out again.
+				if valid {
+					pbt.Excluded(shortMapID)
+				} else {
+					pbt.Excluded(staleMapID)
+				}
+				for k := range comp {
+					if !keys[k] {
+						delete(comp, k)
+					}
+				}
+			}
+		}
 		off1, err := dns.PackDomainName(s, buf, off, comp, st.Compress)
 		if (err == nil) != valid {
 			how := "the first call with this compression map"
 			if i > 0 && !st.NewMap {
 				how = fmt.Sprintf("call %d with the same compression map (an earlier call was refused: %v)", i+1, refused)
+			}
+			if st.Short > 0 {
+				how += fmt.Sprintf(", repeated with the whole buffer after the same call was refused with %d octets of room", st.Short-1)
 			}
 			return pbt.Errf("PackDomainName(%q, compress=%v) at offset %d, %s: err=%v, but IsDomainName and the reference say valid=%v; calls so far: %s", short(s), st.Compress, off, how, err, valid, describeSteps(c.Steps[:i+1]))
 		}
@@ -153,7 +219,11 @@ func checkMapSeq(c mapSeqCase) error {
 		}
 		got, _, rerr := wm.ReadName(buf[:off1], off)
 		if rerr != nil || !got.Equal(wm.Name(st.Labels)) {
-			return pbt.Errf("PackDomainName(%q, compress=%v) at offset %d (call %d with a shared map and buffer, %v) wrote %x, which reads back as %q (err=%v); calls so far: %s", short(s), st.Compress, off, i+1, d, buf[off:off1], short(wm.EscName(got)), rerr, describeSteps(c.Steps[:i+1]))
+			again := ""
+			if st.Short > 0 {
+				again = fmt.Sprintf(", repeated with the whole buffer after the same call was refused for lack of room (%d octets)", st.Short-1)
+			}
+			return pbt.Errf("PackDomainName(%q, compress=%v) at offset %d (call %d with a shared map and buffer%s, %v) wrote %x, which reads back as %q (err=%v); calls so far: %s", short(s), st.Compress, off, i+1, again, d, buf[off:min(max(off1, off), len(buf))], short(wm.EscName(got)), rerr, describeSteps(c.Steps[:i+1]))
 		}
 		if _, _, uerr := dns.UnpackDomainName(buf[:off1], off); uerr != nil {
 			return pbt.Errf("PackDomainName(%q) emitted octets that UnpackDomainName rejects: %v", short(s), uerr)
@@ -162,6 +232,12 @@ func checkMapSeq(c mapSeqCase) error {
 	}
 	if afterRefusal {
 		classes = append(classes, "call-after-a-refused-call-same-map")
+	}
+	if shortRefused > 0 {
+		classes = append(classes, "no-room-then-repeated-with-room")
+	}
+	if shortAccepted > 0 {
+		classes = append(classes, "short-buffer-had-room")
 	}
 	pbt.Note(key, nInvalid > 0 || len(d.Pat) > 0, classes...)
 	// a refused call may have written a part of its name behind off; in front of the first name and
@@ -185,6 +261,9 @@ func describeSteps(steps []mapStep) string {
 		}
 		if st.NewMap {
 			x += "+newmap"
+		}
+		if st.Short > 0 {
+			x += fmt.Sprintf("+first-with-%d-octets-of-room", st.Short-1)
 		}
 		out = append(out, x)
 	}
@@ -230,7 +309,13 @@ func genMapSeq(t *rapid.T) mapSeqCase {
 		if defect(labels) >= 0 && wm.Name(labels).WireLen() > 200 {
 			labels = labels[len(labels)-1:]
 		}
-		steps = append(steps, mapStep{Labels: labels, Compress: rapid.IntRange(0, 3).Draw(t, "compress") != 0, NewMap: i > 0 && rapid.IntRange(0, 9).Draw(t, "newmap") == 0})
+		st := mapStep{Labels: labels, Compress: rapid.IntRange(0, 3).Draw(t, "compress") != 0, NewMap: i > 0 && rapid.IntRange(0, 9).Draw(t, "newmap") == 0}
+		if rapid.IntRange(0, 3).Draw(t, "shortfirst") == 0 {
+			// the buffer of the moment ends somewhere inside the name (0 octets of room .. exactly enough):
+			// refused, and repeated with the whole buffer
+			st.Short = 1 + rapid.IntRange(0, min(wm.Name(labels).WireLen(), 300)).Draw(t, "room")
+		}
+		steps = append(steps, st)
 	}
 	if pbt.Known(staleMapID) {
 		for i := range steps {
@@ -258,7 +343,20 @@ func init() {
 			{Steps: []mapStep{{Labels: lab("x", "y", "", "example"), Compress: true}, {Labels: lab("z", "x", "y", "", "example"), Compress: true}}},
 			{Steps: []mapStep{{Labels: lab("x", y64, "example"), Compress: true}, {Labels: lab("z", "x", y64, "example"), Compress: true}}},
 		} {
-			if err := checkMapSeq(c); err != nil {
+			if err := checkMapSeq1(c, false, false); err != nil {
+				return err
+			}
+		}
+		return nil
+	})
+	pbt.Probe(shortMapID, func() error {
+		for _, c := range []mapSeqCase{
+			// the breaker's shape: the second name of a buffer runs out of room behind its first label
+			{Steps: []mapStep{{Labels: lab("example", "org"), Compress: true}, {Labels: lab("www", "sub", "example", "org"), Compress: true, Short: 1 + 5}}},
+			// one call is enough
+			{Steps: []mapStep{{Labels: lab("aaa", "bbb", "ccc"), Compress: true, Short: 1 + 10}}},
+		} {
+			if err := checkMapSeq1(c, false, false); err != nil {
 				return err
 			}
 		}
